@@ -16,6 +16,7 @@ import (
 	"path/filepath"
 	"sort"
 	"strings"
+	"syscall"
 	"testing"
 	"time"
 
@@ -70,6 +71,10 @@ type c02Scenario struct {
 	// the configured collections' last item is never below the stored checkpoint (otherwise it may be: a seqno-advanced or
 	// system event moved the checkpoint beyond it)
 	CollFloor bool `json:"coll_floor,omitempty"`
+	// ReadFault (file backend with a stored checkpoint): while the session opens the checkpoint file cannot be read for a
+	// reason other than "it does not exist" (the process is out of file descriptors): a persisted checkpoint is still
+	// persisted - the session either does not open (fail-stop) or requests what is stored, never a reset position
+	ReadFault bool `json:"read_fault,omitempty"`
 }
 
 func c02DocOf(t ckTuple, uuid string) *models.CheckpointDocument {
@@ -171,7 +176,24 @@ func c02ExecOpen(sc c02Scenario) (detail string) {
 	disc.set(uint16(lo), uint16(hi))
 	st := stream.NewStream(cl, md, cfg, &couchbase.Version{Major: 7}, &couchbase.BucketInfo{BucketType: "membase"},
 		disc, cons, map[uint32]string{}, make(chan struct{}, 1), &fakeHandler{}, tracing.NewTracerComponent())
-	if ok, pv := within(20*time.Second, func() { st.Open() }); !ok || pv != nil {
+	var lim syscall.Rlimit
+	fault := sc.ReadFault && filePath != "" && len(stored) > 0
+	if fault {
+		realSnapshot() // (the harness's own one-time bootstrap needs sockets)
+		if err := syscall.Getrlimit(syscall.RLIMIT_NOFILE, &lim); err != nil {
+			fault = false
+		} else if err := syscall.Setrlimit(syscall.RLIMIT_NOFILE, &syscall.Rlimit{Cur: 0, Max: lim.Max}); err != nil {
+			fault = false
+		}
+	}
+	ok, pv := within(20*time.Second, func() { st.Open() })
+	if fault {
+		_ = syscall.Setrlimit(syscall.RLIMIT_NOFILE, &lim)
+		if ok && pv != nil && strings.Contains(fmt.Sprint(pv), filePath) {
+			return "" // fail-stop on the read error: the session did not open, nothing was requested from a position that is not the persisted one
+		}
+	}
+	if !ok || pv != nil {
 		return fmt.Sprintf("Open(): returned=%v panic=%v", ok, pv)
 	}
 	defer within(20*time.Second, func() { st.Close(false) })
@@ -207,7 +229,7 @@ func c02ExecOpen(sc c02Scenario) (detail string) {
 			want = ckTuple{}
 		}
 		if got != want {
-			return fmt.Sprintf("vb %d requested with %+v, persisted/required is %+v (stored=%v reset=%q)", o.Vb, got, want, has, sc.Reset)
+			return fmt.Sprintf("vb %d requested with %+v, persisted/required is %+v (stored=%v reset=%q read fault at open=%v)", o.Vb, got, want, has, sc.Reset, fault)
 		}
 		wantEnd := ^uint64(0)
 		if sc.Mode == "finite" {
@@ -282,6 +304,7 @@ func TestC02_Open(t *testing.T) {
 			sc.CollPct = rapid.SliceOfN(rapid.SampledFrom([]int{100, 0, 50, 99, 10}), 1, 4).Draw(rt, "collpct")
 			sc.CollFloor = rapid.IntRange(0, 2).Draw(rt, "collfloor") != 0
 		}
+		sc.ReadFault = sc.Backend == "file" && len(sc.Docs) > 0 && rapid.IntRange(0, 2).Draw(rt, "readfault") == 0
 		journal("C02", "c02open", sc)
 		d := c02ExecOpen(sc)
 		journalDone()
@@ -305,6 +328,9 @@ func TestC02_Open(t *testing.T) {
 		}
 		if inRange == 0 && sc.Reset == "latest" {
 			labels = append(labels, "latest_reset_applies")
+		}
+		if sc.ReadFault {
+			labels = append(labels, "stored_file_unreadable_at_open")
 		}
 		for _, p := range sc.CollPct {
 			if p < 100 {
